@@ -137,7 +137,9 @@ def describe_subject(blobs, subj, pubcache):
     if kind == 'doc':
         return sigs.subj_doc(blobs, subj[1]), subj[1], {'doc': subj[1]}
     if kind == 'text':
-        return sigs.subj_doc(blobs, subj[1].encode('utf-8')), subj[1], {'doc': subj[1].encode('utf-8')}
+        tb_ = subj[1].encode('utf-8')
+        canon_ = b'\r\n'.join(l.rstrip(b' \t') for l in tb_.replace(b'\r\n', b'\n').split(b'\n'))     # proposal for the independent verifier (TLC: CanonCleartext)
+        return dict(sigs.subj_doc(blobs, tb_), cleartext=True), subj[1], {'doc': canon_}
     if kind == 'none':
         return {}, None, {}
 
@@ -176,7 +178,19 @@ def indep_event(blobs, sig, subj, env, pubcache, label):
         pubcache['self'] = pgpy.PGPKey.from_blob(blob)[0]
     pub = pubcache['self']
     s2 = sigs.parse_sig(pkt)
-    reimport_ok = s2 is not None and bytes(s2) == pkt and sigs.verify_outcome(pub, vsubj, s2) == 'truthy'
+    if subj[0] == 'text' and s2 is not None:
+        # the signature of a cleartext signed message is verified as part of that message (the 7.1 form of the text is what it covers)
+        with warnings.catch_warnings():
+            warnings.simplefilter('ignore')
+            try:
+                cm = pgpy.PGPMessage.new(subj[1], cleartext=True)
+                cm |= s2
+                cm = pgpy.PGPMessage.from_blob(str(cm)) if all(ord(ch) < 128 for ch in subj[1]) and '\r' not in subj[1] else cm
+                reimport_ok = bytes(s2) == pkt and bool(pub.verify(cm))
+            except Exception:
+                reimport_ok = False
+    else:
+        reimport_ok = s2 is not None and bytes(s2) == pkt and sigs.verify_outcome(pub, vsubj, s2) == 'truthy'
     # ---- independent verifier (claims)
     tag, body, raw = build.read_packets(pkt)[0]
     f = build.read_sig_body(body)
